@@ -191,7 +191,18 @@ def _dyn_getattr2(ip, a, kw, node):
 R.DYN_GETATTR = getattr(R, "DYN_GETATTR", [])
 R.DYN_GETATTR.append(_dyn_getattr2)
 R.EXTERNALS["inspect.getattr_static"] = R.ExtFn(lambda ip, a, kw, node: _obj_getattr(ip, a[0], a[1], node))
-R.EXTERNALS["inspect.unwrap"] = R.ExtFn(lambda ip, a, kw, node: ZV(L.fn("unwrapped", L.V, L.V)(as_v(a[0])), "Obj"))
+unwrap_loops = declare_pred("unwrap_loops", L.V, L.B)      # inspect.unwrap(o) raises ValueError (a __wrapped__ chain that never ends: an object answering every attribute)
+
+
+def _inspect_unwrap(ip, a, kw, node):
+    ln = getattr(node, "lineno", 0)
+    if ip.branch(unwrap_loops(as_v(a[0])), ln):
+        raise RaisedEx(ExcVal("ValueError"), ln)
+    return ZV(L.fn("unwrapped", L.V, L.V)(as_v(a[0])), "Obj")
+
+
+R.EXTERNALS["inspect.unwrap"] = R.ExtFn(_inspect_unwrap)
+R.ATTRS[("Obj", "__module__")] = lambda ip, r: ZV(L.fn("func_module", L.V, L.V)(r.term), "Opt[str]")
 R.EXTERNALS["monkeytype.compat:cached_property"] = ZV(L.const("django_cached_property"), "Opt[Cls]")
 declare_always_truthy("Cls")
 
